@@ -99,8 +99,6 @@ Qed.
 Lemma firstz_1 l c : pkl l 0 = Ok c -> firstz 1 l = [c].
 Proof. destruct l; [discriminate|]. intros [= ->]. reflexivity. Qed.
 
-Section Canon.
-Variables (id_start id_cont is_zs : Z -> bool).
 
 (* ranges of the types returned by the sub-scanners *)
 Lemma num_exp_ty l k c n ty e : num_exp l k c = Ok (n, ty, e) -> ty = ErrorToken \/ ty = DecimalToken.
@@ -176,6 +174,9 @@ Proof.
   destruct l as [|a [|b [|c t]]]; try discriminate.
   rewrite pkl_cons_0, pkl_1, pkl_2. intros [= ->] [= ->] [= ->]. reflexivity.
 Qed.
+
+Section Canon.
+Variables (id_start id_cont is_zs : Z -> bool).
 
 (* (c) Lexer.Next: every keyword / punctuator / operator token has the type that spells its text,
    and an IdentifierToken is never the spelling of a keyword *)
